@@ -4,6 +4,7 @@ import LenaModel.Lemmas.C02Neg
 import LenaModel.Lemmas.C02Split
 import LenaModel.Lemmas.C02Spec
 import LenaModel.Lemmas.C02Sim
+import LenaModel.Lemmas.C02Min
 /-! # C02 — property theorems: evaluation is lazy
 
 The model (`Model/C02.lean`) runs pipelines of generators with explicit state over an instrumented
@@ -31,6 +32,25 @@ streaming elements, all inputs and all consumer stop points `k`:
   it retains at most `3·bufsize` input values (the blocks bound to `orig_buf` and `buf`, and the one being read),
   `Count` one, a negative `Slice` `|index|` — `Stage.cap`, the bound the weak-reference oracle of the
   harness uses                      (`split_retention_bound`, `count_held_bound`, `negslice_held_bound`).
+* "shortest": for pipelines of exact elements (callables, `Filter`, non-negative `Slice`, `RunIf`) the pull
+  count at result `k` is minimal — the input cut one value earlier has no result `k`
+  (`exact_pipeline_minimal`); the look-ahead of `Count` and the lag of a negative stop are necessary
+  (`count_lookahead_needed`, `lag_needed`); for `Split` the granularity is the block (`split_block_exact`).
+
+Recorded judgements (behaviour of the real code that the model transcribes and the statement does not forbid):
+* `Split.run` reports its end only when its input ends (`splitSpec … .cf = sf.cf`, `split_end_is_input_end`), also
+  when every branch has stopped: over an infinite input a consumer that asks for more results than the
+  `Split` has never gets `StopIteration`.  The statement bounds the pulls at the moment the k-th result is
+  *taken* and promises termination for "a `Slice(n)` placed after an infinite Source" whose `n` results
+  exist; the docstring of `Split.run` defines the final pass at the end of the flow.  Judged outside the
+  statement (a candidate improvement: `if not n_of_active_seqs: break`).  In that state `buf` keeps the block
+  last handed to a branch: the retention is `3·bufsize`, not `2·bufsize` (`split_retention_bound`).
+* `Slice(start, stop)` with `start ≥ stop ≥ 0` pulls `start` values for an empty result (`islice_end`:
+  `need (max start stop)`).  This is `itertools.islice` ("consume the iterable up to the start position"),
+  to which `Slice` documents it is similar; judged outside the statement.
+* Inside a block of `Split` and inside `RunIf` the inner sequence is modelled by its list semantics
+  (`iRun`): its own laziness does not touch the input.
+
 The hypotheses `Stage.WF` and `seqFuelOK` have executable forms (`Stage.wfb`, `seqFuelOKb`, proved
 equivalent) which the driver evaluates on every generated case. -/
 
@@ -443,6 +463,137 @@ theorem pipeline_prefix_determined (els : List (Stage α)) (hwf : ∀ e ∈ els,
   · rw [hfin]; simp only; split <;> simp
   · intro e; rw [hfin]; simp only; split <;> simp
 
+/-- non-vacuity of `pipeline_prefix_determined`: `Filter(even), Slice(2)` over `[1,2,3,4]` followed by anything —
+the two results need 4 pulls (`need 2 = 4 ≤ 4`), so what follows the prefix is never looked at -/
+example : (seqSpec [Stage.filter (fun n : Nat => n % 2 == 0), .islice 0 (some 2) 1] (SF.ofList [1, 2, 3, 4])).need 2 ≤
+    [1, 2, 3, 4].length := by decide
+example : (seqRun [Stage.filter (fun n : Nat => n % 2 == 0), .islice 0 (some 2) 1]
+      (Pipe.ofList ([1, 2, 3, 4] ++ [99, 100]))).take 40 2
+    = (seqRun [Stage.filter (fun n : Nat => n % 2 == 0), .islice 0 (some 2) 1] (Pipe.ofList [1, 2, 3, 4])).take 40 2 := by
+  decide
+
+/-! ## "the shortest prefix": necessity -/
+
+/-- elements that hand a result over the moment the input value that causes it is pulled — no look-ahead
+(`Count`), no lag (negative `Slice`), no block (`Split`): callables, `Filter`, `Slice` with
+non-negative arguments, `RunIf` -/
+def Stage.Exact : Stage α → Prop
+  | .map _ => True
+  | .filter _ => True
+  | .islice _ _ _ => True
+  | .runIf _ _ _ _ => True
+  | _ => False
+
+/-- every result of a pipeline of exact elements is handed over at the stamp of an input value (never "at
+the end") -/
+theorem exact_stamps (els : List (Stage α)) (hex : ∀ e ∈ els, e.Exact) (sf : SF α) :
+    ∀ p ∈ (seqSpec els sf).vals, p.2 ∈ sf.vals.map Prod.snd := by
+  induction els generalizing sf with
+  | nil => intro p hp; exact List.mem_map_of_mem hp
+  | cons e es ih =>
+    intro p hp
+    have h1 := ih (fun e' he' => hex e' (by simp [he'])) (e.spec sf) p hp
+    have hE := hex e (by simp)
+    have hstage : ∀ q ∈ (e.spec sf).vals, q.2 ∈ sf.vals.map Prod.snd := by
+      intro q hq
+      cases e with
+      | map f =>
+        simp only [Stage.spec, mapSpec, List.mem_map] at hq
+        obtain ⟨x, hx, rfl⟩ := hq
+        exact List.mem_map.mpr ⟨x, hx, rfl⟩
+      | filter g =>
+        simp only [Stage.spec, filterSpec, List.mem_filter] at hq
+        exact List.mem_map_of_mem hq.1
+      | islice a b st =>
+        simp only [Stage.spec, isliceSpec, Lena.C17.islice] at hq
+        exact List.mem_map_of_mem (isliceGo_subset b st _ _ _ q hq)
+      | runIf ι init sel inner =>
+        simp only [Stage.spec, runIfSpec] at hq
+        exact runIfSpecGo_stamps sel inner _ _ q hq
+      | negslice a b st => exact absurd hE id
+      | count mark => exact absurd hE id
+      | split σb brs bufsize copyBuf => exact absurd hE id
+    simp only [List.mem_map] at h1
+    obtain ⟨q, hq, hq2⟩ := h1
+    rw [← hq2]
+    exact hstage q hq
+
+/-- **`exact_pipeline_minimal`** — "the SHORTEST prefix that determines those k results", necessity.  For a
+pipeline of exact elements: if result number `k` (from 0) is handed over after `c` pulls, then the first
+`c − 1` input values do not determine it — over the input cut after `c − 1` values the pipeline has no
+result number `k` at all.  Together with `pipeline_prefix_determined` (the first `c` values do determine
+it): `c` is the length of the shortest prefix that determines the result, and that is exactly what has
+been pulled (`pipeline_lazy`). -/
+theorem exact_pipeline_minimal (els : List (Stage α)) (hwf : ∀ e ∈ els, e.WF) (hex : ∀ e ∈ els, e.Exact)
+    (xs : List α) (fu : Nat) (k : Nat) (a : α) (c : Nat)
+    (hfu : seqFuelOK els (SF.ofList xs) fu) (hfu' : seqFuelOK els (SF.ofList (xs.take (c - 1))) fu)
+    (h : (seqSpec els (SF.ofList xs)).vals[k]? = some (a, c)) :
+    (seqSpec els (SF.ofList (xs.take (c - 1)))).vals[k]? = none := by
+  -- the stamp `c` is the stamp of an input value: 1 ≤ c ≤ |xs|
+  have hc := exact_stamps els hex (SF.ofList xs) (a, c) (List.mem_of_getElem? h)
+  simp only [SF.ofList, List.mem_map] at hc
+  obtain ⟨q, hq, hqc⟩ := hc
+  have hb := stamps_snd_bounds xs 0 q hq
+  rw [hqc] at hb
+  cases hk : (seqSpec els (SF.ofList (xs.take (c - 1)))).vals[k]? with
+  | none => rfl
+  | some p =>
+    exfalso
+    obtain ⟨a', c'⟩ := p
+    have hc' := exact_stamps els hex (SF.ofList (xs.take (c - 1))) (a', c') (List.mem_of_getElem? hk)
+    simp only [SF.ofList, List.mem_map] at hc'
+    obtain ⟨q', hq', hqc'⟩ := hc'
+    have hb' := stamps_snd_bounds (xs.take (c - 1)) 0 q' hq'
+    rw [hqc'] at hb'
+    have hlen : (xs.take (c - 1)).length = c - 1 := by simp; omega
+    -- what the consumer asks for with `k + 1` results is settled within the prefix
+    have hneed : (seqSpec els (SF.ofList (xs.take (c - 1)))).need (k + 1) ≤ (xs.take (c - 1)).length := by
+      simp only [SF.need, hk]
+      omega
+    have hdet := pipeline_prefix_determined els hwf (xs.take (c - 1)) (xs.drop (c - 1)) fu hfu' (k + 1) hneed
+    rw [List.take_append_drop, pipeline_lazy els hwf xs fu hfu (k + 1),
+      pipeline_lazy els hwf (xs.take (c - 1)) fu hfu' (k + 1)] at hdet
+    have h1 := congrArg (fun t => t.1[k]?) hdet
+    simp only [List.getElem?_take, Nat.lt_succ_self, if_true, h, hk] at h1
+    simp only [Option.some.injEq, Prod.mk.injEq] at h1
+    omega
+
+/-- non-vacuity of `exact_pipeline_minimal` and the content of "shortest": `Filter(even), Slice(1, None, 2)`
+over `1..8` — result number 1 is the value 8, handed over after 8 pulls; over `1..7` there is no such result -/
+example : (seqSpec [Stage.filter (fun n : Nat => n % 2 == 0), .islice 1 none 2] (SF.ofList [1, 2, 3, 4, 5, 6, 7, 8])).vals[1]?
+    = some (8, 8) := by decide
+example : (seqSpec [Stage.filter (fun n : Nat => n % 2 == 0), .islice 1 none 2]
+    (SF.ofList ([1, 2, 3, 4, 5, 6, 7, 8].take (8 - 1)))).vals[1]? = none := by decide
+
+/-- **`count_lookahead_needed`** — the one value of look-ahead `Count` documents is necessary: with only the
+first `k + 1` input values, result number `k` would be the *marked* last value, not the plain one -/
+theorem count_lookahead_needed (mark : Nat → α → α) (xs : List α) (k : Nat) (x : α) (hx : xs[k]? = some x) :
+    (countSpec mark (SF.ofList (xs.take (k + 1)))).vals[k]? = some (mark (k + 1) x, k + 2) := by
+  rw [count_lookahead]
+  have hlen : (xs.take (k + 1)).length = k + 1 := by
+    have : k < xs.length := by
+      rcases Nat.lt_or_ge k xs.length with h | h
+      · exact h
+      · rw [List.getElem?_eq_none h] at hx; cases hx
+    simp; omega
+  simp only [SF.ofList, stamps_length, hlen, stamps_getElem?, List.getElem?_take, Nat.lt_succ_self, if_true, hx,
+    Option.map_some]
+  have hneed : (SF.mk 0 (stamps (xs.take (k + 1)) 0) (k + 1 + 1)).need (k + 2) = k + 2 := by
+    rw [need_of_ge _ _ (by simp [hlen])]
+  simp [hneed]
+
+/-- **`lag_needed`** — the lag of a negative stop `-m` is necessary: with only the first `c − 1` values
+(`c = k + m + 1` the stamp of result `k`) the slice has no result number `k` — value `k` might still be one
+of the last `m` -/
+theorem lag_needed (m : Nat) (xs : List α) (k : Nat) :
+    (lagSpec m (stamps (xs.take (k + m)) 0))[k]? = none := by
+  rw [negslice_lag]
+  have : (stamps (xs.take (k + m)) 0)[k + m]? = none := by
+    rw [List.getElem?_eq_none]
+    simp only [stamps_length, List.length_take]
+    exact Nat.min_le_left _ _
+  simp [this]
+
 /-- `Filter`, `Count` and a negative `Slice` before the terminating `Slice(2)`, over `0, 1, 2, …`:
 the pipeline ends, after 7 pulls -/
 example : (seqRun [Stage.filter (fun n : Nat => n % 2 == 0), .count (fun c v => v + 100 * c),
@@ -815,6 +966,65 @@ theorem splitSpecGo_block {σb : Type} (b : Nat) (copyBuf : Bool) (cf fuel c0 : 
       simp [blockAsk]
   simp only [this, if_false, Bool.false_eq_true]
   rfl
+
+/-- **`split_block_exact`** — block number `j` of the input (the values `j·b … (j+1)·b − 1`): everything the
+branches produce for it carries exactly the clock at which `(j+1)·b` values had been obtained (or the end
+seen) — it is handed downstream before value `(j+1)·b + 1` is pulled, and not later — and what follows is
+what `Split` yields from the rest of the input, with the branches as this block left them. -/
+theorem split_block_exact {σb : Type} (b : Nat) (hb : 1 ≤ b) (copyBuf : Bool) (cf fuel c0 : Nat)
+    (xs : List (α × Nat)) (act : List (Lena.C03.Branch σb α)) (fwe : Bool) (j : Nat) (hj : j * b < xs.length) :
+    splitSpecGo (some b) copyBuf cf (fuel + 1) ((SF.mk c0 xs cf).need (j * b)) (xs.drop (j * b)) act fwe =
+      (Lena.C03.outputs (Lena.C03.blockLoop copyBuf (((xs.drop (j * b)).take b).map Prod.fst)
+          (act.length + 1) 0 act []).1).map (fun v => (v, (SF.mk c0 xs cf).need ((j + 1) * b)))
+        ++ splitSpecGo (some b) copyBuf cf fuel ((SF.mk c0 xs cf).need ((j + 1) * b)) (xs.drop ((j + 1) * b))
+            (Lena.C03.blockLoop copyBuf (((xs.drop (j * b)).take b).map Prod.fst) (act.length + 1) 0 act []).2
+            false := by
+  have hne : xs.drop (j * b) ≠ [] := by
+    intro h0
+    have := congrArg List.length h0
+    simp at this
+    omega
+  rw [splitSpecGo_block b copyBuf cf fuel _ _ act fwe hb hne, need_drop, List.drop_drop]
+  have e : j * b + b = (j + 1) * b := by rw [Nat.add_mul]; omega
+  rw [e]
+
+/-- **`cap_sound`** — `Stage.cap` (the per-element buffer size the liveness oracle of the harness allows, compared
+with the harness's own table on every case) bounds what the machines hold in every reachable state:
+a negative `Slice` its deque, `Count` its one value of look-ahead, `Split` the blocks bound to `orig_buf`
+and `buf` and the block under construction. -/
+theorem cap_sound :
+    (∀ (a b : Option Int) (st : Nat) (up : Gen σ α) (fu : Nat) (s : σ) (t : σ × NSt α),
+      StepReach (negStep a b up fu) (s, NSt.init) t →
+        ∃ c, (Stage.negslice a b st : Stage α).cap = some c ∧ t.2.held ≤ c) ∧
+    (∀ (mark : Nat → α → α) (l : CSt α), ∃ c, (Stage.count mark).cap = some c ∧ l.held ≤ c) ∧
+    (∀ (σb : Type) (brs : List (Lena.C03.Branch σb α)) (b : Nat) (copyBuf : Bool), brs.isEmpty = false →
+      ∀ (up : Gen σ α) (fu : Nat) (s : σ) (t : σ × SSt σb α),
+        StepReach (splitStep (some b) copyBuf up fu) (s, splitInit brs) t →
+          ∃ c, (Stage.split σb brs (some b) copyBuf).cap = some c ∧ t.2.held ≤ c) := by
+  refine ⟨?_, ?_, ?_⟩
+  · intro a b st up fu s t h
+    exact ⟨_, rfl, negslice_held_bound a b up fu s t h⟩
+  · intro mark l
+    exact ⟨1, rfl, count_held_bound l⟩
+  · intro σb brs b copyBuf hne up fu s t h
+    exact ⟨3 * b, by simp [Stage.cap, hne], (split_retention_bound b copyBuf up fu brs s t h).2.2.2⟩
+
+/-- non-vacuity of the reachability hypotheses: one loop iteration of `_run_negative_islice` (from the start to
+the `fill_deque` loop) and one of `Split.run` (the first value of a block has been pulled) -/
+example : StepReach (negStep none (some (-2)) (listSrc (α := Nat)) 5)
+    (⟨[7, 8], 0, false⟩, NSt.init) (⟨[7, 8], 0, false⟩, NSt.fill 0 []) :=
+  StepReach.tail (StepReach.refl _) rfl
+
+example : StepReach (splitStep (σb := BrSt) (some 2) true (listSrc (α := V)) 5)
+    (⟨[⟨1, []⟩, ⟨2, []⟩], 0, false⟩, splitInit [⟨0, .sequence, seqOps (fun c b => (b, c)), ⟨[], 0, [], [], 0⟩⟩])
+    (⟨[⟨2, []⟩], 1, false⟩,
+      { (splitInit [⟨0, .sequence, seqOps (fun c b => (b, c)), ⟨[], 0, [], [], 0⟩⟩] : SSt BrSt V) with buf := [⟨1, []⟩] }) :=
+  StepReach.tail (StepReach.refl _) rfl
+
+/-- `Split.run` reports its end when — and only when — its input has ended (see the recorded judgement in the
+module docstring) -/
+theorem split_end_is_input_end {σb : Type} (brs : List (Lena.C03.Branch σb α)) (bufsize : Option Nat)
+    (copyBuf : Bool) (sf : SF α) : (splitSpec brs bufsize copyBuf sf).cf = sf.cf := rfl
 
 /-- **`split_block_bound`** — every result of `Split(…, bufsize=b).run` is handed downstream at a clock at
 which a whole number of blocks has been obtained from the input (`i·b` values, or its end has been
